@@ -376,6 +376,8 @@ func (c *Cond) Wait(m *Mutex) {
 	if !m.held || m.owner != t {
 		s.Fail("cond wait by thread %d without holding the mutex", t.ID)
 	}
+	// a scheduling point between the caller's last check and the atomic unlock-and-enqueue: a notifier that does not hold the mutex can slip in here
+	s.yield()
 	spurious := false
 	if s.SpurLeft > 0 {
 		if s.choose(KSpurious, 2, false) == 1 {
